@@ -32,6 +32,8 @@ def make_data(desc):
   N = n + extra
   rs = np_stream(seed, "points")
   yS = np.arange(N) % c
+  if desc.get("class_sizes"):   # explicit (unbalanced) class sizes, sum == n
+    yS[:n] = np.repeat(np.arange(c), desc["class_sizes"])
   rs.shuffle(yS[:n])          # training part keeps balanced classes
   if extra:
     rs.shuffle(yS[n:])
